@@ -99,8 +99,10 @@ def run(c):
     rt.replay_witnesses(c, oracle)
     cases, dis, stats = rt.run_rt(c, oracle, n, k, gen_hist=rt.flushing(gen),
                                   cfg_filter=lambda ir: any(d['clock'] for d in ir['dsts']),
+                                  dst_pred=lambda d: d['clock'] is not None,
                                   known_classifier=rt.known_by(c, [('F9', rt.f9_territory)]))
-    rt.decide(c, ob, dis)
+    rt.decide(c, ob, dis, oracle=oracle, gen_hist=rt.flushing(gen), cfg_filter=lambda ir: any(d['clock'] for d in ir['dsts']),
+              dst_pred=lambda d: d['clock'] is not None, known_classifier=rt.known_by(c, [('F9', rt.f9_territory)]))
     if c.tier == 'thorough' and ob['ok']:
         ok, log = c.leanchecker(['BVM.Props.C05'])
         if not ok:
